@@ -135,12 +135,12 @@ def execute(plan):
         import random
 
         runner.setup()
-        bal = runner.make_balancer(dict(plan["config"], threshold=0))
         order = sorted(results)
         if plan["same_object_order"] == "descending":
             order.reverse()
         elif plan["same_object_order"] == "shuffled":
             random.Random(plan.get("same_object_seed", 0)).shuffle(order)
+        bal = runner.make_balancer(dict(plan["config"], threshold=order[0]))  # first threshold through the constructor
         for t in order:
             bal.confidence_threshold = t
             r = runner.run_once({"rows": rows_in, "config": dict(plan["config"], threshold=t), "sim": plan["sim"]}, balancer=bal)
